@@ -72,7 +72,9 @@ static void script(int k, int from, int f, int init_fail) {
 
   te_next_slot = 1;
   int failed_before_create = FAILED;
-  hnd = p_uthread_create(thr_main, &ran, nd_pbool(1), "ab");
+  /* joinable: any truthy int - except in the preemption entry (init_fail == 2), where a symbolic detach state would make
+   * every later model entry of main a candidate point for the thread and multiply the script by ~20 */
+  hnd = p_uthread_create(thr_main, &ran, init_fail == 2 ? TRUE : nd_pbool(1), "ab");
   VASSERT(hnd != NULL || FAILED > failed_before_create, "create fails only when something failed");
   if (hnd != NULL) {
     pint r = p_uthread_join(hnd);
